@@ -177,8 +177,9 @@ class SimRawSink(io.RawIOBase):
     """Raw byte sink accepting `budget` bytes, then raising BrokenPipeError on every further
     write (the reader end of a pipe has gone). budget=None: never breaks."""
 
-    def __init__(self, budget=None, log=None, name='rawsink'):
+    def __init__(self, budget=None, log=None, name='rawsink', atomic=False):
         io.RawIOBase.__init__(self)
+        self.atomic = atomic      # True: a write that does not fit entirely is refused (the reader went away between two writes)
         self.budget = budget
         self.accepted = bytearray()
         self.raised = 0
@@ -197,7 +198,8 @@ class SimRawSink(io.RawIOBase):
             self.accepted += b
             return len(b)
         room = self.budget - len(self.accepted)
-        if room <= 0:
+        if room <= 0 or (self.atomic and room < len(b)):
+            self.budget = len(self.accepted)
             self.raised += 1
             if self.log is not None:
                 self.log.add(self.name, 'write!', len(b))
